@@ -124,6 +124,10 @@ func (o *xop) line() string {
 		return fmt.Sprintf("x load %d", o.sid)
 	case "close":
 		return fmt.Sprintf("x close %d", o.sid)
+	case "offload":
+		return "x offload"
+	case "rollback":
+		return "x rollback"
 	case "run":
 		return fmt.Sprintf("x run %s %s %s %s %s %s", bit(o.okS), optI(o.a1), bit(o.okI), optI(o.a2), fmtXOut(o.outS), fmtXOut(o.outI))
 	}
@@ -275,6 +279,7 @@ func genX(r *hx.Rng) *xtrace {
 		return d
 	}
 	loaded := map[uint64]bool{}
+	off := false
 	if r.Chance(85) {
 		// the shards that were written to exist on the store before the first check
 		for _, s := range t.sh {
@@ -287,6 +292,14 @@ func genX(r *hx.Rng) *xtrace {
 	nops := 5 + r.Intn(9)
 	for n := 0; n < nops; n++ {
 		switch c := r.Intn(100); {
+		case c < 3:
+			// the partition is being offloaded to another store (PreOffload), or the offload is rolled back
+			if off {
+				t.ops = append(t.ops, xop{kind: "rollback"})
+			} else {
+				t.ops = append(t.ops, xop{kind: "offload"})
+			}
+			off = !off
 		case c < 12:
 			s := t.sh[r.Intn(len(t.sh))].sid
 			if r.Chance(4) {
@@ -364,6 +377,9 @@ func genX(r *hx.Rng) *xtrace {
 			}
 			t.ops = append(t.ops, o)
 		}
+	}
+	if off && r.Chance(70) {
+		t.ops = append(t.ops, xop{kind: "rollback"})
 	}
 	t.ops = append(t.ops, xop{kind: "run", okS: true, okI: true, outS: map[uint64]xout{}, outI: map[uint64]xout{}})
 	return t
@@ -794,6 +810,8 @@ func (e *xeng) DeleteShard(db string, ptId uint32, shardID uint64) error {
 		res = "nf"
 	case errno.Equal(err, errno.ErrShardClosed):
 		res = "closed"
+	case errno.Equal(err, errno.PtIsAlreadyMigrating):
+		res = "mig"
 	default:
 		res = "err:" + err.Error()
 	}
@@ -853,6 +871,7 @@ func playX(root string, t *xtrace) (out []emitted, st map[string]int, err error)
 	svc.Engine = xe
 	out = append(out, emitted{op: t.newLine(), ans: "ok | " + w.dump()})
 	closedS := map[uint64]bool{}
+	offloading := false
 	expired := func(d, endRel int64) bool { return d != 0 && endRel+d < w.vnow }
 	for i := range t.ops {
 		o := &t.ops[i]
@@ -873,6 +892,20 @@ func playX(root string, t *xtrace) (out []emitted, st map[string]int, err error)
 				} else {
 					ans = r
 				}
+			case "offload":
+				if err := w.eng.PreOffload(1, dbName, 0); err != nil {
+					ans = "err " + err.Error()
+					return
+				}
+				offloading = true
+				ans = "ok"
+			case "rollback":
+				if err := w.eng.RollbackPreOffload(1, dbName, 0); err != nil {
+					ans = "err " + err.Error()
+					return
+				}
+				offloading = false
+				ans = "ok"
 			case "close":
 				if sh := w.pt().Shard(o.sid); sh != nil {
 					if err := sh.Close(); err != nil && !errno.Equal(err, errno.ErrShardClosed) {
@@ -899,6 +932,14 @@ func playX(root string, t *xtrace) (out []emitted, st map[string]int, err error)
 					shBefore[id] = true
 				}
 				svc.VerifHandle()
+				if offloading {
+					st["x.run.while-offloading"]++
+					for id := range shBefore {
+						if w.pt().Shard(id) == nil {
+							viol = append(viol, [2]string{"shard-deleted-while-offloading", fmt.Sprintf("shard %d left the store while its partition was being offloaded ;; history: %s", id, histText(t, i))})
+						}
+					}
+				}
 				if xe.age > maxAge || time.Since(w.t0) > maxAge {
 					panic(errTooSlow)
 				}
